@@ -112,7 +112,7 @@ def cid_rows(config, columns):
         ["D", "Escape character", config["escape"]],
         ["D", "Quoting", config["quoting"]],
         ["D", "Line delimiter", config["line"]],
-        ["D", "Encoding", "UTF-8"],
+        ["D", "Encoding", config.get("encoding", "UTF-8")],
     ]
     for index in range(columns):
         rows.append(["F", "c%d" % (index + 1), "", "X", "", "Text"])
@@ -298,7 +298,7 @@ def check_case(sub, case, shrink=False):
              sample={"config": config, "table": table} if nontrivial and len(table) <= 3 else None, evals=0)
     rowio_failed = False
     trips = ROUNDTRIPS
-    if "\r" in present or "\n" in present or any(ord(ch) > 127 for ch in present):
+    if "\r" in present or "\n" in present or any(ord(ch) > 127 for ch in present) or "encoding" in config:
         # line breaks and non-ASCII are what opening a file can spoil: also go through a path
         trips = ROUNDTRIPS + (("path", roundtrip_path),)
         sub.cls("via-path")
@@ -447,6 +447,15 @@ def table_cases(draw):
         table[0][0] = draw(st.sampled_from(MAGIC_CELLS))
         if draw(st.booleans()):
             table[0][1:] = [""] * (columns - 1)
+    # the declared encoding matters where cutplace opens the file itself (the round trip through a path)
+    encoding = draw(st.sampled_from(["UTF-8", "UTF-8", "UTF-8", "utf-16", "utf-8-sig", "utf-32", "utf-16-le", "cp1252",
+                                     "latin-1", "cp850"]))
+    try:
+        "".join(cell for row in table for cell in row).encode(encoding)
+        (config["delimiter"] + config["quote"] + config["escape"]).encode(encoding)
+        config["encoding"] = encoding
+    except UnicodeError:
+        pass
     return {"config": config, "table": table, "columns": columns}
 
 
